@@ -146,7 +146,7 @@ def _sh(s):
     return strip_ver(s).replace("<Operation as OperationControl>::", "")
 
 
-@rule("RELUCTANT-REPEAT", ["C01", "C02", "C06", "C20", "C16"], floor=10)
+@rule("RELUCTANT-REPEAT", ["C01", "C02", "C06", "C20", "C16", "C12"], floor=10)
 def reluctant_repeat(ctx):
     """ReluctantRepeatIterator::next (variable-length reluctant repeat) enumerates end positions fewest iterations
     first and completely: with min == 0 the start position (no iteration) comes first; a further iteration is
